@@ -215,7 +215,7 @@ func (n *Node) Leave() error {
 
 	defer n.Shutdown()
 
-	err := n.core.leave(n.conf.JoinTimeout)
+	err := n.core.leave(n.conf.JoinTimeout, &n.coreLock)
 	if err != nil {
 		n.logger.WithError(err).Error("Leaving")
 		return err
